@@ -22,12 +22,13 @@ NONFLAGS = (0, 5, 7, 8, 10, 100)
 def generate(rng, tier="quick"):
     n = rng.weighted([(0, 1), (1, 2), (2, 2), (rng.randint(3, 12), 10), (rng.randint(13, 30), 3), (rng.randint(990, 1100), 0.25)])
     k = rng.randint(1, 6)
-    if rng.chance(0.02):
+    if rng.chance(0.03):
         k = rng.randint(65, 140)  # a roll-up over very many tests (chunked / blocked code paths)
         n = min(n, 12)
     vectors = []
+    all_uint8 = k > 64 and rng.chance(0.7)
     for _ in range(k):
-        dtype = rng.weighted([("uint8", 6), ("int64", 2), ("float64", 2), ("int8", 1), ("uint16", 1), ("float32", 1)])
+        dtype = "uint8" if all_uint8 else rng.weighted([("uint8", 6), ("int64", 2), ("float64", 2), ("int8", 1), ("uint16", 1), ("float32", 1)])
         style = rng.weighted([("flags", 5), ("mostly_good", 2), ("with_nonflags", 3)])
         vals, mask = [], []
         masked = rng.chance(0.5)
